@@ -23,5 +23,15 @@ pub assume_specification<'a> [<bytes::Bytes as std::ops::Deref>::deref] (b: &'a 
     ensures r@ == bv(b);
 #[verifier::external_body]
 pub fn shim_to_be_bytes_u32(v: u32) -> (r: [u8; 4]) ensures be32(r[0], r[1], r[2], r[3]) == v, r[0] == (v / 16777216) as u8, r[1] == ((v / 65536) % 256) as u8, r[2] == ((v / 256) % 256) as u8, r[3] == (v % 256) as u8 { v.to_be_bytes() }
-pub assume_specification [std::net::Ipv4Addr::octets] (a: &std::net::Ipv4Addr) -> (r: [u8; 4]);
-pub assume_specification [std::net::Ipv6Addr::octets] (a: &std::net::Ipv6Addr) -> (r: [u8; 16]);
+// the octets of an address, most significant first: what Ipv4Addr::from(u32) / Ipv6Addr::new(8 x u16) are built from (std: both are
+// big-endian views of the same 4 / 16 octets)
+pub uninterp spec fn v4_octets(a: Ipv4Addr) -> Seq<u8>;
+pub uninterp spec fn v6_octets(a: Ipv6Addr) -> Seq<u8>;
+pub broadcast axiom fn axiom_v4_octets(a: Ipv4Addr)
+    ensures (#[trigger] v4_octets(a)).len() == 4, ipv4_of(be32(v4_octets(a)[0], v4_octets(a)[1], v4_octets(a)[2], v4_octets(a)[3])) == a;
+pub broadcast axiom fn axiom_v6_octets(a: Ipv6Addr)
+    ensures (#[trigger] v6_octets(a)).len() == 16,
+        ipv6_of(be16(v6_octets(a)[0], v6_octets(a)[1]), be16(v6_octets(a)[2], v6_octets(a)[3]), be16(v6_octets(a)[4], v6_octets(a)[5]), be16(v6_octets(a)[6], v6_octets(a)[7]),
+                be16(v6_octets(a)[8], v6_octets(a)[9]), be16(v6_octets(a)[10], v6_octets(a)[11]), be16(v6_octets(a)[12], v6_octets(a)[13]), be16(v6_octets(a)[14], v6_octets(a)[15])) == a;
+pub assume_specification [std::net::Ipv4Addr::octets] (a: &std::net::Ipv4Addr) -> (r: [u8; 4]) ensures r@ == v4_octets(*a);
+pub assume_specification [std::net::Ipv6Addr::octets] (a: &std::net::Ipv6Addr) -> (r: [u8; 16]) ensures r@ == v6_octets(*a);
